@@ -30,17 +30,23 @@ def cfg(max_instr, max_mut, hang=False, export=False, quote_family=False):
     return c + 'CHECK_DEADLOCK FALSE\n'
 
 
+SPECIAL = {'\\u00e9': 'é', '\\f': '\x0c', '\\v': '\x0b', '\\u00a0': '\u00a0', '\\u2028': '\u2028', 'LONG': 'a' * 300}
+
+
 def render(toks):
     lines, cur = [], []
+    eol = True
     for t in toks:
         if t == 'NL':
             lines.append(' '.join(cur))
             cur = []
+        elif t == 'NOEOL':
+            eol = False
         else:
-            cur.append('é' if t == '\\u00e9' else t)
+            cur.append(SPECIAL.get(t, t))
     if cur:
         lines.append(' '.join(cur))
-    return '\n'.join(lines) + '\n'
+    return '\n'.join(lines) + ('\n' if eol else '')
 
 
 # ---------------------------------------------------------------- worker side
@@ -97,6 +103,8 @@ def judge(allowed, o):
 
 
 def known(text, o):
+    if 'a' * 256 in text and o.get('ident') == 'INTERNAL_ERROR' and 'File name too long' in (o.get('stderr') or ''):
+        return 'D18'
     if '9**9**9' in text and o.get('no_termination'):
         return 'D10'
     return None
@@ -105,7 +113,8 @@ def known(text, o):
 # ---------------------------------------------------------------- corpus mutation (auxiliary, seeded)
 EXTREME = ['0', '-1', '1//0', '1/0', '1.5', "'a'", '()', '2**70', '1e3', 'None', '', '(', ')', '[', '*', '\\', "'\\6'",
            "'(?P<a'", "'[a-'", "'a{2,1}'", '+', '@[UNDEF]@', '@[EXACTLY_ACT]@', '"', "'", '<<EOF', ':>', '-rel-tmp', '-rel',
-           '!', '&&', '||', '=', ':', '{', '}', '-full', 'é', '\t', "'a{4294967296}'", '10**5000', '[setup]', '`']
+           '!', '&&', '||', '=', ':', '{', '}', '-full', 'é', '\t', "'a{4294967296}'", '10**5000', '[setup]', '`', '\x0c', '\x0b', '\u00a0', '\u2028', 'a' * 300,
+           "''", "'.'"]
 
 
 def mutate(rnd, text):
